@@ -16,6 +16,10 @@ SHAPES = {
     "fan_in": dict(mods=[("A", [], ["o"]), ("B", [], ["o"]), ("C", ["i"], [])], wires=[("A", "o", "C", "i"), ("B", "o", "C", "i")], ext=[], nohandler=[]),
     "fan_in_same_module": dict(mods=[("A", [], ["o", "p"]), ("C", ["i"], [])], wires=[("A", "o", "C", "i"), ("A", "p", "C", "i")], ext=[], nohandler=[]),
     "dup_wire": dict(mods=[("A", [], ["o"]), ("C", ["i"], [])], wires=[("A", "o", "C", "i"), ("A", "o", "C", "i")], ext=[], nohandler=[]),
+    "double_edge_plus_feeder": dict(mods=[("A", [], ["o", "p"]), ("B", ["i", "j", "k"], []), ("C", [], ["q"])],
+                                    wires=[("A", "o", "B", "i"), ("A", "p", "B", "j"), ("C", "q", "B", "k")], ext=[], nohandler=[]),
+    "late_feeder_chain": dict(mods=[("A", [], ["o"]), ("B", ["i", "k"], ["r"]), ("D", ["x"], []), ("C", [], ["q"])],
+                              wires=[("A", "o", "B", "i"), ("C", "q", "B", "k"), ("B", "r", "D", "x")], ext=[], nohandler=[]),
     "cycle2": dict(mods=[("A", ["i"], ["o"]), ("B", ["i"], ["o"])], wires=[("A", "o", "B", "i"), ("B", "o", "A", "i")], ext=[], nohandler=[]),
     "self_loop": dict(mods=[("A", ["i"], ["o"])], wires=[("A", "o", "A", "i")], ext=[], nohandler=[]),
     "missing_source": dict(mods=[("A", [], ["o"]), ("B", ["i", "j"], [])], wires=[("A", "o", "B", "i")], ext=[], nohandler=[]),
@@ -193,7 +197,7 @@ def diagram(shape_name):
 
 HARNESSES = {
     "diagram": {"make": diagram, "witness_every": 7,
-                "jobs": lambda tier: [{"shape_name": s} for s in SHAPES if tier == "thorough" or s not in ("wide", "diamond")]
+                "jobs": lambda tier: [{"shape_name": s} for s in SHAPES if tier == "thorough" or s not in ("wide", "diamond", "late_feeder_chain")]
                 + ([] if tier == "thorough" else []),
                 "clauses": ["C16.a", "C16.a-can", "C16.b", "C16.c", "C16.d", "C16.d-topo", "C16.e", "C16.e-partial", "C16.f"]},
 }
@@ -205,7 +209,7 @@ META = {
         "technique": "symbolic execution of wagent.py/wiring_runtime.py with symbolic enum labels on every port and handler output; z3 per path",
     },
     "files": ["operon_ai/core/wagent.py", "operon_ai/core/wiring_runtime.py"],
-    "bounds": {"quick": "13 shapes with <=3 modules (incl. two wires from one module into the same port, and the same wire twice); all labels symbolic; 2 capabilities per module", "thorough": "13 shapes incl. diamond and a 3-module/4-port shape"},
+    "bounds": {"quick": "14 shapes with <=3 modules (incl. two wires from one module into the same port, and the same wire twice); all labels symbolic; 2 capabilities per module", "thorough": "13 shapes incl. diamond and a 3-module/4-port shape"},
     "outside": ["diagrams outside the catalogue / more than 4 modules", "wires appended to diagram.wires without connect()"],
     "float_argument": "none",
     "assumptions": ["handlers are stubs choosing raw/labelled/arbitrary outputs per port"],
